@@ -486,6 +486,17 @@ func (cs *supply) Reserve(g Grant, o *libmem.Offer) (map[string]libmem.NodeMask,
 			return nil, policyError("can't reserve %d shared CPUs of %s from %s",
 				sharedPortion, g.String(), cs.DumpAllocatable())
 		}
+		// Like an allocation, a reinstated grant must leave the pools it takes
+		// CPUs from enough sharable CPUs for what is granted in them, and needs
+		// a sharable CPU itself if its container runs on the shared ones.
+		if pool := cs.shortWithout(exclusive); pool != nil {
+			return nil, policyError("can't reserve exclusive CPUs (%s) of %s, %s needs them",
+				exclusive.String(), g.String(), pool.Name())
+		}
+		if (exclusive.IsEmpty() || sharedPortion > 0) && cs.sharable.Difference(exclusive).IsEmpty() {
+			return nil, policyError("can't reserve %s, no sharable CPUs left in %s",
+				g.String(), cs.DumpAllocatable())
+		}
 		cs.isolated = cs.isolated.Difference(isolated)
 		cs.sharable = cs.sharable.Difference(exclusive)
 		cs.grantedShared += sharedPortion
@@ -556,6 +567,21 @@ func (cs *supply) neededSharableCPUs(n Node) cpuset.CPUSet {
 		needed = needed.Union(cs.neededSharableCPUs(c))
 	}
 	free := n.FreeSupply().SharableCPUs()
+	need := cs.neededSharableCount(n)
+	if have := needed.Intersection(free).Size(); have < need {
+		extra := free.Difference(needed).List()
+		if len(extra) > need-have {
+			extra = extra[:need-have]
+		}
+		needed = needed.Union(cpuset.New(extra...))
+	}
+	return needed
+}
+
+// neededSharableCount returns how many sharable CPUs the given pool needs: as many as
+// the shared capacity granted in its subtree takes, and at least one if a container
+// runs on the pool's shared CPUs.
+func (cs *supply) neededSharableCount(n Node) int {
 	need := (n.GrantedSharedCPU() + 999) / 1000
 	if need == 0 {
 		for _, g := range cs.node.Policy().allocations.grants {
@@ -566,14 +592,24 @@ func (cs *supply) neededSharableCPUs(n Node) cpuset.CPUSet {
 			}
 		}
 	}
-	if have := needed.Intersection(free).Size(); have < need {
-		extra := free.Difference(needed).List()
-		if len(extra) > need-have {
-			extra = extra[:need-have]
+	return need
+}
+
+// shortWithout returns a pool in the subtree of this one (itself included) which the
+// given CPUs would leave with fewer sharable CPUs than it needs, or nil.
+func (cs *supply) shortWithout(cset cpuset.CPUSet) Node {
+	var short Node
+	cs.node.DepthFirst(func(d Node) {
+		if short != nil {
+			return
 		}
-		needed = needed.Union(cpuset.New(extra...))
-	}
-	return needed
+		free := d.FreeSupply().SharableCPUs()
+		left := free.Difference(cset).Size()
+		if left < free.Size() && left < cs.neededSharableCount(d) {
+			short = d
+		}
+	})
+	return short
 }
 
 // DumpCapacity returns a printable representation of the supply's resource capacity.
